@@ -233,7 +233,13 @@ func emitMsgCases(w *caseWriter, r *rng, rounds int, only map[int]bool) {
 }
 
 // ---------- primitive level ----------
+// restricts the primitive cases to some helper families (the dependency cone of a property)
+var primKinds map[string]bool
+
 func (w *caseWriter) wpCase(p primSpec, val any) []byte {
+	if primKinds != nil && !primKinds[p.Kind] {
+		return nil
+	}
 	op := fmt.Sprintf("WP\t%s\t%s", p.text(), primValText(val))
 	buf := &bytes.Buffer{}
 	var err error
@@ -258,6 +264,9 @@ func (w *caseWriter) wpCase(p primSpec, val any) []byte {
 }
 
 func (w *caseWriter) rpCase(p primSpec, in []byte) {
+	if primKinds != nil && !primKinds[p.Kind] {
+		return
+	}
 	op := fmt.Sprintf("RP\t%s\t%s", p.text(), hex.EncodeToString(in))
 	buf := bytes.NewBuffer(append([]byte{}, in...))
 	var err error
